@@ -25,7 +25,9 @@ one() {
   done
   git -C /repo worktree remove --force $wt >/dev/null 2>&1; rm -rf $wt
   rm -rf $out/$id/smt $out/$id/evidence   # the SMT files of one run are ~0.2 GB: keep only logs and replay files
-  if [ -n "$res" ]; then echo "$id detected: $res"; else echo "$id MISSED"; fi
+  if [ -n "$res" ]; then echo "$id detected: $res"
+  elif grep -q '"not_detected": true' $d/meta.json; then echo "$id NOT-DETECTED (documented in its meta.json and DESIGN.md section 5)"
+  else echo "$id MISSED"; fi
 }
 n=0
 list="$@"; [ -z "$list" ] && list=$(ls -d seeded/*/ | xargs -n1 basename)
